@@ -41,7 +41,8 @@ def fail(oracle, mismatch, detail, step):
 
 _SHAPE_WORDS = ('broadcast', 'shape', 'reshape', 'unpack', 'length', 'size',
                 'dimension', 'match', 'index', 'axis', 'out of bounds',
-                'too many', 'not enough', 'operands')
+                'too many', 'not enough', 'operands', 'as many',
+                'number of parameters', 'number of population')
 
 
 def ok_exc(r):
